@@ -132,6 +132,11 @@ func (f *freshFn) classify(e ast.Expr) (fkind, string) {
 				if cl, ok := first.(*ast.CompositeLit); ok && len(cl.Elts) == 0 {
 					return fFresh, ""
 				}
+				// append(p[:n:n], x...) has no spare capacity to reuse: it reallocates
+				// as soon as one element is added (with none it returns p[:n] unchanged)
+				if se, ok := first.(*ast.SliceExpr); ok && se.Slice3 && se.Max != nil && len(x.Args) > 1 {
+					return fFresh, ""
+				}
 				return f.classify(first)
 			}
 		case *types.Func:
@@ -801,5 +806,143 @@ func ruleFreshDst(c *Ctx, rule string, names ...string) {
 		if n == 0 {
 			c.und(rule, "sequtils."+name+"/SetSlice", fd.Pos(), "no SetSlice call found")
 		}
+	}
+}
+
+// ---- periter: storage installed inside a loop is allocated in that iteration ------
+
+// sharedRoot reports the loop-external buffer that e is carved from, if any:
+// a 2-index sub-slice of (or an append onto a 2-index sub-slice of) a local
+// that lives across iterations. Columns/rows carved that way overlap in
+// their spare capacity, so a later append to one overwrites its neighbour.
+func (f *freshFn) sharedRoot(e ast.Expr, body *ast.BlockStmt, depth int) string {
+	if depth > 6 {
+		return ""
+	}
+	e = unparen(e)
+	switch x := e.(type) {
+	case *ast.SliceExpr:
+		if x.Slice3 && x.Max != nil {
+			return ""
+		}
+		if r := f.sharedRoot(x.X, body, depth+1); r != "" {
+			return r
+		}
+		if id, ok := unparen(x.X).(*ast.Ident); ok {
+			if o := f.p.TypesInfo.ObjectOf(id); o != nil && !(body.Pos() <= o.Pos() && o.Pos() < body.End()) {
+				if _, isParam := f.alias[o]; !isParam {
+					return id.Name
+				}
+			}
+		}
+		return ""
+	case *ast.Ident:
+		o := f.p.TypesInfo.ObjectOf(x)
+		v, ok := o.(*types.Var)
+		if !ok || v.IsField() {
+			return ""
+		}
+		if !(body.Pos() <= v.Pos() && v.Pos() < body.End()) {
+			return "" // a whole buffer, not a carved piece; handled by the retention rule
+		}
+		// declared in the loop body: look at its definitions there
+		res := ""
+		ast.Inspect(body, func(n ast.Node) bool {
+			as, ok := n.(*ast.AssignStmt)
+			if !ok {
+				return true
+			}
+			for i, l := range as.Lhs {
+				if id, ok := l.(*ast.Ident); ok && f.p.TypesInfo.ObjectOf(id) == o && len(as.Rhs) == len(as.Lhs) {
+					if r := f.sharedRoot(as.Rhs[i], body, depth+1); r != "" {
+						res = r
+					}
+				}
+			}
+			return true
+		})
+		return res
+	case *ast.CallExpr:
+		if tv, ok := f.p.TypesInfo.Types[x.Fun]; ok && tv.IsType() && len(x.Args) == 1 {
+			return f.sharedRoot(x.Args[0], body, depth+1)
+		}
+		if b, ok := calleeOf(f.p, x).(*types.Builtin); ok && b.Name() == "append" && len(x.Args) > 0 {
+			return f.sharedRoot(x.Args[0], body, depth+1)
+		}
+	}
+	return ""
+}
+
+// rulePerIter checks the named method.
+func rulePerIter(c *Ctx, rule, short, name string) {
+	fd, p := c.decl(short, name)
+	fn := p.Types.Name() + "." + name
+	f := newFreshFn(p, fd)
+	n := 0
+	var visit func(node ast.Node, body *ast.BlockStmt)
+	visit = func(node ast.Node, body *ast.BlockStmt) {
+		ast.Inspect(node, func(x ast.Node) bool {
+			switch s := x.(type) {
+			case *ast.ForStmt:
+				if ast.Node(s) != node {
+					visit(s.Body, s.Body)
+					return false
+				}
+			case *ast.RangeStmt:
+				if ast.Node(s) != node {
+					visit(s.Body, s.Body)
+					return false
+				}
+			case *ast.AssignStmt:
+				if body == nil || len(s.Lhs) != len(s.Rhs) {
+					return true
+				}
+				for i, l := range s.Lhs {
+					if !receiverStore(f, l) {
+						continue
+					}
+					var elems []ast.Expr
+					if call, ok := unparen(s.Rhs[i]).(*ast.CallExpr); ok && isAppendCall(p, call) {
+						if !call.Ellipsis.IsValid() {
+							elems = call.Args[1:]
+						}
+					} else if _, isIdx := unparen(l).(*ast.IndexExpr); isIdx {
+						elems = []ast.Expr{s.Rhs[i]}
+					}
+					for _, el := range elems {
+						if !isSliceT(p.TypesInfo.Types[el].Type) {
+							continue
+						}
+						n++
+						key := fmt.Sprintf("%s/installed-slice#%d", fn, n)
+						if r := f.sharedRoot(el, body, 0); r != "" {
+							c.bad(rule, key, el.Pos(), "the slice installed in the receiver in each iteration is carved from the loop-external buffer "+r+" without a capacity bound: consecutive pieces overlap in their spare capacity, so a later append to one (Add of a row, AppendColumns) overwrites the start of the next")
+						} else {
+							c.ok(rule, key, el.Pos(), "allocated in the iteration that installs it")
+						}
+					}
+				}
+			case *ast.CallExpr:
+				if body == nil {
+					return true
+				}
+				if sel, ok := s.Fun.(*ast.SelectorExpr); ok && sel.Sel.Name == "SetSlice" && len(s.Args) == 1 {
+					if _, isM := calleeOf(p, s).(*types.Func); isM {
+						n++
+						key := fmt.Sprintf("%s/SetSlice#%d", fn, n)
+						if r := f.sharedRoot(s.Args[0], body, 0); r != "" {
+							c.bad(rule, key, s.Pos(), "each row is given storage appended onto a prefix of the loop-external buffer "+r+": rows that fit in its capacity are written into the same array (they alias each other) and later rows find earlier rows' letters where the fill letter should be")
+						} else {
+							c.ok(rule, key, s.Pos(), "the row's new storage is allocated in this iteration")
+						}
+					}
+				}
+			}
+			return true
+		})
+	}
+	visit(fd.Body, nil)
+	if n == 0 {
+		c.triv(rule, fn+"/no-install-in-loop", fd.Pos(), "the method installs no slice in a loop")
 	}
 }
